@@ -236,14 +236,29 @@ CLAIMED['C11'] = dict(
                            'column flow into constructors, frozen '
                            'normalised SQL shapes, documentation cross-check')
 
+CLAIMED['C03'] = dict(
+    text="Structural necessary conditions of 'exactly the combinations the "
+         "request describes' - the set equality with the specification over "
+         "all database states is NOT decided. Decided: every filter a "
+         "request group can carry (resources, required/forbidden traits, "
+         "member_of, forbidden aggregates, in_tree) flows into "
+         "RequestGroupSearchContext and is read on both sibling search paths "
+         "(single-provider and tree/sharing), also for a group without "
+         "resources; every request-wide parameter reaches its filter; a "
+         "combination enters the result only under the group-policy, "
+         "same_subtree and capacity filters applied to that same "
+         "combination and only for anchors holding every group; every "
+         "product combination of the tree path is guarded by the trait "
+         "check on that combination; every provider of the single-provider "
+         "path is offered anchored at its own root under the anchor filter "
+         "alone; the pre-1.29 restriction is bound to the 1.29 gate, has "
+         "the one-provider-per-tree form and runs after the merge; "
+         "de-duplication is by (resources, mappings); the candidate queries "
+         "have their reviewed SQL shapes.",
+    ref='3/C03', technique='attribute def-use agreement between sibling '
+                           'search paths, branch-literal must-pass queries, '
+                           'builder views, reviewed SQL predicate shapes')
 NOT_APPLICABLE = {
-    'C03': "extensional equality of a multi-path search (SQL + set algebra + "
-           "itertools.product) with a declarative specification over all "
-           "database states: no structural clause short of the algorithm's "
-           "own shape is a necessary condition; a static rule would either "
-           "freeze the implementation or decide nothing (shared-object and "
-           "capacity-predicate clauses are decided under C02, the 1.29 gate "
-           "under C14)",
     'C11': "functional correctness of ~40 handlers against a reference model "
            "of the whole API over all histories; quantifies over runtime "
            "values that no sound static argument in reach can bound",
